@@ -125,7 +125,7 @@ impl View {
                             Some(w) if w.v.starts_with("Str(") => {
                                 // recover the string from its Debug rendering
                                 let inner = &w.v[4..w.v.len() - 1];
-                                (serde_json::from_str::<String>(inner).unwrap_or_else(|_| unescape_debug(inner)), None)
+                                (unescape_debug(inner), None)
                             }
                             Some(_) => ("\u{fffc}".to_string(), None),
                             None => (String::new(), None),
@@ -461,7 +461,7 @@ pub fn render_node(n: &VNode) -> String {
 }
 
 /// inverse of `{:?}` on a str, good enough for the alphabets used here
-fn unescape_debug(s: &str) -> String {
+pub fn unescape_debug(s: &str) -> String {
     let s = s.trim_matches('"');
     let mut out = String::new();
     let mut it = s.chars().peekable();
